@@ -22,7 +22,8 @@ where
     }
 
     fn len(&self) -> usize {
-        self.source.len()
+        // Every read path stops at the shorter of source and window starts.
+        self.source.len().min((self.window_starts)().len())
     }
 
     #[inline]
